@@ -283,6 +283,27 @@ if PROP == "C16":
         if f.origin is not None and stackscope.extract_outermost(f.origin).pyframe is not f.pyframe:
             leg.violation("foreign-frame-origin", f"foreign frame {f.funcname} claims origin {type(f.origin).__name__}")
     co.close()
+    # (f) extract_outermost as the FIRST extraction after a module that brings its own glue appeared: it must agree with extract
+    import types as _types
+    class NeedsGlue:
+        def __init__(s, g): s.g = g
+    def _install():
+        @stackscope.unwrap_stackitem.register(NeedsGlue)
+        def _u(x): return x.g
+    def ggen():
+        yield
+    gg = ggen(); next(gg)
+    mod = _types.ModuleType("zz_c16_glue"); mod._stackscope_install_glue_ = _install
+    sys.modules["zz_c16_glue"] = mod
+    leg.case("outermost-first-after-glue-module", True)
+    try:
+        fo = stackscope.extract_outermost(NeedsGlue(gg))
+        st_ = stackscope.extract(NeedsGlue(gg))
+        if not st_.frames or fo.pyframe is not st_.frames[0].pyframe:
+            leg.violation("outermost-first-after-glue-module", "extract_outermost differs from extract(x).frames[0] right after a glue module appeared")
+    except Exception as e:
+        leg.violation("outermost-first-after-glue-module", f"extract_outermost as first extraction after a glue module appeared raised {e!r}")
+    sys.modules.pop("zz_c16_glue", None); gg.close()
     # (e) an elaborate_frame hook REDIRECTS to suspended generator-like objects (single item and a sequence of items, replace
     #     and insert form): the frames found inside each of them have it as origin, and every origin recovers its frame
     async def job_leaf(): await trap()
